@@ -202,6 +202,7 @@ def run(ck):
         emit("dephase %d %s %s" % (n, cvals(us._data), cvals(h64)), fo.data, 1e-12)
         identities(numpy, fo.data, "Foerster tensor after add_dephasing", ck, {"KF": KF.tolist(), "h": [str(z) for z in hvals]}, "Foerster:pure_dephasing")
     api_stream(ck, qr, numpy)
+    lindblad_builder_stream(ck, qr, numpy)
     if ok:
         model = ck.drive(DRIVER, lines)
         if model is not None:
@@ -243,6 +244,48 @@ def secular_oracle(numpy, R, Rs, ck, inp, tag):
     identities(numpy, Rs, "secularised tensor", ck, inp, "secular-identities:%s" % tag, herm=(numpy.abs(numpy.conj(R) - numpy.transpose(R, (1, 0, 3, 2))).max() < 1e-12))
 
 
+def lindblad_builder_stream(ck, qr, numpy):
+    """relaxation_theory='Lindblad_form' / 'electronic_Lindblad' of the builder (system-bath interaction given by operators and rates)"""
+    from quantarhei import Molecule, Aggregate, TimeAxis, energy_units, eigenbasis_of
+    from quantarhei.qm import SystemBathInteraction, ProjectionOperator
+    rng = ck.rng
+    ta = TimeAxis(0.0, 50, 1.0)
+    for s in range(ck.n(2, 8)):
+        nmol = rng.choice([2, 3])
+        with energy_units("1/cm"):
+            agg = Aggregate([Molecule([0.0, 12000.0 + rng.randint(-300, 300)]) for _ in range(nmol)])
+            for i in range(nmol):
+                for j in range(i + 1, nmol):
+                    agg.set_resonance_coupling(i, j, rng.choice([50.0, -120.0, 200.0]))
+        agg.build()
+        dim = agg.get_Hamiltonian().dim
+        ops, rates = [], []
+        for i in range(1, dim):
+            for j in range(1, dim):
+                if i != j and rng.random() < 0.7:
+                    ops.append(ProjectionOperator(i, j, dim=dim)); rates.append(rng.randint(1, 16) / 1600.0)
+        if not ops:
+            ops.append(ProjectionOperator(1, 2, dim=dim)); rates.append(0.005)
+        agg.set_SystemBathInteraction(SystemBathInteraction(ops, rates=rates))
+        for theory in ("Lindblad_form", "electronic_Lindblad"):
+            for sec in (False, True):
+                inp = {"sites": nmol, "theory": theory, "secular_relaxation": sec, "rates": rates}
+                tag = "%s%s" % (theory, ":secular" if sec else "")
+                try:
+                    RT, ham = agg.get_RelaxationTensor(ta, relaxation_theory=theory, secular_relaxation=sec)
+                    if getattr(RT, "as_operators", False):
+                        RT.convert_2_tensor()
+                    d = numpy.array(RT.data).copy()
+                    with eigenbasis_of(ham):
+                        d_e = numpy.array(RT.data).copy()
+                except Exception as e:
+                    ck.fail("raises:builder:%s" % tag, "get_RelaxationTensor raised %r" % (e,), inp)
+                    continue
+                ck.case(("lindblad-builder", s, tag), nontrivial=True, kind="api", theory=theory)
+                identities(numpy, d, "get_RelaxationTensor(%s)" % tag, ck, inp, "api:" + tag)
+                identities(numpy, d_e, "get_RelaxationTensor(%s) exciton basis" % tag, ck, inp, "api-exciton:" + tag)
+
+
 def api_stream(ck, qr, numpy):
     from quantarhei import Molecule, Aggregate, TimeAxis, CorrelationFunction, energy_units, eigenbasis_of
     rng = ck.rng
@@ -251,7 +294,8 @@ def api_stream(ck, qr, numpy):
              ("standard_Redfield", dict(as_operators=True)), ("standard_Foerster", dict()), ("standard_Foerster", dict(time_dependent=True)),
              ("combined_RedfieldFoerster", dict(coupling_cutoff=30.0)), ("combined_RedfieldFoerster", dict(coupling_cutoff=30.0, secular_relaxation=True)),
              ("combined_RedfieldFoerster", dict(coupling_cutoff=30.0, time_dependent=True)),
-             ("standard_Redfield", dict(time_dependent=True, relaxation_cutoff_time=40.0))]
+             ("standard_Redfield", dict(time_dependent=True, relaxation_cutoff_time=40.0)),
+             ("noneq_Foerster", dict()), ("noneq_Foerster", dict(time_dependent=True))]
     nsys = ck.n(3, 12)
     for s in range(nsys):
         nmol = rng.choice([2, 3, 3, 4]) if s else 3
@@ -273,7 +317,8 @@ def api_stream(ck, qr, numpy):
                 for j in range(i + 1, nmol):
                     agg.set_resonance_coupling(i, j, rng.choice([10.0, 20.0, 80.0, 150.0, -120.0]))
         agg.build()
-        for theory, opts in (cases if not ck.quick else rng.sample(cases, 6) + [cases[5], cases[7]]):
+        # quick: the Foerster, combined, cut-off and non-equilibrium cases in every run, five of the others at random
+        for theory, opts in (cases if not ck.quick else rng.sample(cases[:5] + [cases[6]] + cases[8:10], 5) + [cases[5], cases[7], cases[10], cases[11 + s % 2]]):
             inp = {"sites": nmol, "theory": theory, "options": {k: v for k, v in opts.items()}, "T": T}
             o = dict(opts)
             try:
@@ -326,6 +371,34 @@ def api_stream(ck, qr, numpy):
                     ck.case(("api-sec-other", s, tag), nontrivial=float(numpy.abs(d_ex).max()) > 0, kind="secularize-in-other-basis", theory=theory)
                 except Exception as e:
                     ck.fail("raises:secular:other-basis:%s" % tag, "secularize() inside eigenbasis_of raised %r" % (e,), inp)
+            if not opts.get("secular_relaxation") and d_site.ndim == 5 and theory != "standard_Redfield":
+                # time-dependent tensors of the general class (all times in one array): every time slice is projected
+                try:
+                    before5 = numpy.array(RT.data).copy()
+                    RT.secularize()
+                    after5 = numpy.array(RT.data)
+                    for tt in sorted(set([0, 1, before5.shape[0] // 2, before5.shape[0] - 1])):
+                        secular_oracle(numpy, before5[tt], after5[tt], ck, dict(inp, time_index=tt), "all-times:" + tag)
+                    ck.case(("api-sec-5", s, tag), nontrivial=float(numpy.abs(before5).max()) > 0, kind="secularize-all-times", theory=theory)
+                except Exception as e:
+                    ck.fail("raises:secular:all-times:%s" % tag, "secularize() of a time-dependent tensor raised %r" % (e,), inp)
+            if not opts.get("secular_relaxation") and d_site.ndim == 4 and s % 2 == 1:
+                # the newer interface (secularize(legacy=False) -> Secular.secularize on the data) and its second call
+                try:
+                    RT2, _h2 = (agg.get_RelaxationTensor(ta, relaxation_theory=theory, **o) if "coupling_cutoff" not in o else (None, None))
+                    if RT2 is not None:
+                        if getattr(RT2, "as_operators", False):
+                            RT2.convert_2_tensor()
+                        b4 = numpy.array(RT2.data).copy()
+                        RT2.secularize(legacy=False)
+                        a4 = numpy.array(RT2.data).copy()
+                        secular_oracle(numpy, b4, a4, ck, inp, "new-interface:" + tag)
+                        RT2.secularize(legacy=False)
+                        if numpy.abs(numpy.array(RT2.data) - a4).max() > 0:
+                            ck.fail("secular:new-interface:second-call:" + tag, "a second secularize(legacy=False) changed the tensor", inp)
+                        ck.case(("api-sec-new", s, tag), nontrivial=float(numpy.abs(b4).max()) > 0, kind="secularize-new-interface", theory=theory)
+                except Exception as e:
+                    ck.fail("raises:secular:new-interface:%s" % tag, "secularize(legacy=False) raised %r" % (e,), inp)
             nz = float(numpy.abs(d_site).max())
             ck.case(("api", s, tag), nontrivial=nz > 0, kind="api", theory=theory,
                     sample={"api": tag, "sites": nmol, "max|R|": nz} if s == 0 and theory == "standard_Foerster" else None)
